@@ -840,6 +840,10 @@ func (tdsChan *Channel) WritePacket(packet *Packet) {
 			if tdsChan.queueRx.IsEOM() {
 				// And queue is EOM - reset queue
 				tdsChan.queueRx.Reset()
+				// The message is over, however it ended: what the
+				// consumer was given last says nothing about the next
+				// message.
+				tdsChan.rxDoneFinal = false
 			} else {
 				// Roll back position and return.
 				tdsChan.queueRx.SetPosition(curPacket, curData)
